@@ -16,7 +16,7 @@ from .ir_growth import is_public, versioned
 STRONG_KINDS = {'ELEM_COPY', 'ELEM_MOVE', 'ELEM_DEFAULT', 'ELEM_CONV', 'ALLOC', 'THROW_LENGTH'}
 MODIFY = {'ELEM_MOVE', 'ELEM_COPY_ASSIGN', 'ELEM_MOVE_ASSIGN', 'ELEM_CONV_ASSIGN', 'ELEM_SWAP'}
 CTORS = {'ELEM_COPY', 'ELEM_MOVE', 'ELEM_DEFAULT', 'ELEM_CONV'}
-ESIZE = {'NM': 4, 'TM': 4, 'MO': 4, 'MOT': 4, 'CO': 4, 'TR': 8, 'int': 4, 'intp': 8}
+ESIZE = {'NM': 4, 'NA': 4, 'TM': 4, 'MO': 4, 'MOT': 4, 'CO': 4, 'TR': 8, 'int': 4, 'intp': 8}
 LISTED = {'push_back', 'emplace_back', 'reserve', 'resize', 'shrink_to_fit', 'append', 'insert', 'emplace'}
 
 
